@@ -581,6 +581,7 @@ func checkCmd(args []string) int {
 	exit := 0
 	violations := 0
 	knownHit := map[string]bool{}
+	vcount := map[string]int{}
 	var confirmedSamples []interface{}
 	for _, c := range cases {
 		if c.Kind == "witness" {
@@ -630,6 +631,12 @@ func checkCmd(args []string) int {
 			continue
 		}
 		violations++
+		vkey := c.FullHarness + "|" + c.Label
+		vcount[vkey]++
+		if vcount[vkey] > 4 {
+			exit = 1
+			continue // further counterexamples of the same obligation are only counted
+		}
 		path := filepath.Join(scratch, fmt.Sprintf("%s_%s.json", c.Harness, c.ID))
 		cb, _ := json.MarshalIndent(c, "", " ")
 		os.WriteFile(path, cb, 0644)
